@@ -440,6 +440,74 @@ harnesses! {
     fqk_search_incomplete_f9 => k_search_incomplete_f9;
     /// @meta props=C03,C06,C09:t tier=quick kind=K timeout=1500 mem=12 unwind=10 bounds="fastq::Reader::make_room on a full buffer of capacity 6 over every 8-byte file, every resume point and every ordered quadruple of offsets"
     fqk_make_room_f8_c6 => k_make_room_f8_c6;
-    /// @meta props=C05,C06,C04 tier=quick kind=K timeout=1500 mem=12 unwind=10 unwindset="seq_io::fill_buf:8" bounds="fastq::Reader::seek (source delivering symbolic chunks) from every state, every window (capacity 4, every file offset) of every file <= 8 bytes to every target byte 0..=n (in-buffer shortcut and real seek + refill)"
+    /// @meta props=C05,C06,C04 tier=quick kind=K stage2=pub timeout=1500 mem=12 unwind=10 unwindset="seq_io::fill_buf:8" bounds="fastq::Reader::seek (source delivering symbolic chunks) from every state, every window (capacity 4, every file offset) of every file <= 8 bytes to every target byte 0..=n (in-buffer shortcut and real seek + refill)"
     fqk_seek_f8_c4 => k_seek_f8_c4;
+}
+
+/// K: `resume_incomplete_search` from an unfinished group in a completely filled buffer (one or
+/// two refills): compaction or growth, refill, resumed search, end-of-input handling
+pub fn k_resume<N: Nd, const F: usize, const CAP: usize>(nd: &mut N) {
+    let file: [u8; F] = any_file::<N, F>(nd);
+    let n = nd.usize_in(CAP, F);
+    let p = nd.usize_in(0, CAP - 1);
+    let make_room = nd.bool();
+    nd.note("format", b"fastq");
+    nd.note("file", &file[p..n]);
+    nd.note_num("cap", CAP as u64);
+    let f = &file[..n];
+    let g = fq_group(f, p);
+    let v = fq_verdict_g(f, p, &g);
+    // the group is not complete inside the first window
+    let lfs_in = count_lf(f, p, CAP);
+    nd.assume(lfs_in < 4);
+    let st = FqState {
+        pos0: p,
+        pos1: 0,
+        seq: if lfs_in >= 1 { g.starts[1] } else { 0 },
+        sep: if lfs_in >= 2 { g.starts[2] } else { 0 },
+        qual: if lfs_in >= 3 { g.starts[3] } else { 0 },
+        inc: 0,
+        line: 1,
+        byte: p as u64,
+        state: 1,
+    };
+    let br = window::<F>(Src::plain(file, n), CAP, 0);
+    let mut r = fq_reader(br, &st);
+    let res = r.verif_resume_incomplete_search((lfs_in + 1) as u8, make_room);
+    match res {
+        Ok(true) => {
+            let rec = r.verif_current_record();
+            check_record(&rec, f, &g, &v);
+            if g.lfs < 4 {
+                vassert!(r.verif_state() == 3, "C20 after the last record (no terminator) the reader is finished");
+            }
+            if !make_room {
+                vassert!(r.verif_buf_pos().0 == p, "C04 an exact-count batch never moves the buffer under the records it already holds");
+            }
+            cover!(g.lfs == 4, "record completed after a refill");
+            cover!(g.lfs == 3, "last record without terminator after a refill");
+        }
+        Ok(false) => {
+            vassert!(v.end, "C02 end of input only when no further group (or a blank tail) remains");
+            vassert!(r.verif_state() == 3, "C20 once the end of input was reported the reader is finished");
+            cover!(true, "blank tail after a refill");
+        }
+        Err(e) => {
+            check_error(&e, f, p, 1, &g, &v);
+            vassert!(r.verif_state() == 3, "C02 a format error is terminal");
+            std::mem::forget(e);
+        }
+    }
+    std::mem::forget(r);
+}
+
+pub fn k_resume_f6_c3<N: Nd>(nd: &mut N) {
+    k_resume::<N, 6, 3>(nd)
+}
+
+harnesses! {
+    @reg registry3;
+    /// @meta props=C20,C02:t,C04:t,C06:t tier=thorough kind=K stage2=pub timeout=3000 mem=30 unwind=8 unwindset="resume_incomplete_search:4;seq_io::fill_buf:3" bounds="fastq::Reader::resume_incomplete_search (make_room true/false, StdPolicy) from an unfinished group at every offset of a full buffer of capacity 3 over every file of 3..=6 bytes"
+    #[kani::stub(std::string::String::from_utf8_lossy, crate::src::stub_lossy_empty)]
+    fqk_resume_f6_c3 => k_resume_f6_c3;
 }
